@@ -56,7 +56,7 @@ __CPROVER_ensures(this_->_count_flag == 0 && gh_frees == __CPROVER_old(gh_frees)
 __CPROVER_ensures(gh_qi0 != 0 ==> (dq_tail == gh_t0 + (gh_cf >> 1) && dq_head == gh_h0 && gh_n_resume == gh_r0)) \
 __CPROVER_ensures((gh_qi0 != 0 && gh_DK < gh_t0) ==> dq_trk == __CPROVER_old(dq_trk)) \
 /* normal mode */ \
-__CPROVER_ensures(gh_qi0 == 0 ==> (dq_head == dq_tail && gh_n_resume >= gh_r0 + (gh_cf >> 1))) \
+__CPROVER_ensures(gh_qi0 == 0 ==> (dq_head == dq_tail && gh_n_resume >= gh_r0 + (gh_cf >> 1) && dq_npush == __CPROVER_old(dq_npush))) \
 SN_ORDER_POST SN_COUNT_POST
 
 #ifndef SN_CF
@@ -84,7 +84,8 @@ SN_ORDER_POST SN_COUNT_POST
   __CPROVER_loop_invariant(SN_LOOP_COMMON(this->this, __begin4, __end4) && QI == QIMPL) \
   __CPROVER_loop_invariant(gh_n_resume >= gh_r0 + (cv_i64)(__begin4 - SN_BASE(this->this))) \
   __CPROVER_loop_invariant(gh_n_resume == gh_r0 + (cv_i64)(__begin4 - SN_BASE(this->this)))  \
-  __CPROVER_loop_invariant((gh_RK >= gh_r0 && gh_RK < gh_n_resume) ==> gh_res_trk == gh_Hr)
+  __CPROVER_loop_invariant((gh_RK >= gh_r0 && gh_RK < gh_n_resume) ==> gh_res_trk == gh_Hr) \
+  __CPROVER_loop_invariant(dq_npush == __CPROVER_loop_entry(dq_npush))
 
 #endif
 #ifdef CV_HAS_sp_suspend_now
